@@ -8,7 +8,7 @@ BASELINE_OFF = ("cd /repo && GOFLAGS=-mod=mod GOPROXY=off GOSUMDB=off GOTOOLCHAI
 
 CHECKS = {
  "C15": dict(level="exploration", design="5/C15",
-   text="Differential run of the two implementations of the repository: the C library is built from /repo/c (current tree) with clang ASan+UBSan and driven by /verif/cdriver/driver.c. Every query (full scan, SeekRef, SeekLog, RefsFor) is answered by both implementations on the same file/directory: Go-written tables read by C, C-written tables read by Go (and judged by the independent decoder and the source records), Go-written stacks (Adds + compactions) read by C, C-written stacks (stack_add with its auto-compaction, compact_all) read and extended by Go and read again by C. Sanitizer reports of the C side on such input are violations. Also (e): the C stack extends a stack written by Go - single transactions and multi-table additions through reftable_stack_new_addition / addition_add / addition_commit (C's auto-compaction then merges tables Go wrote), compact_all, compact_all with reflog expiry (time and minimum update index, judged by the reference filter) and reftable_stack_clean - and Go reads the result (fresh view == model) and C's answers on it == Go's.",
+   text="Differential run of the two implementations of the repository: the C library is built from /repo/c (current tree) with clang ASan+UBSan and driven by /verif/cdriver/driver.c. Every query (full scan, SeekRef, SeekLog, RefsFor) is answered by both implementations on the same file/directory: Go-written tables read by C, C-written tables read by Go (and judged by the independent decoder and the source records), Go-written stacks (Adds + compactions) read by C, C-written stacks (stack_add with its auto-compaction, compact_all) read and extended by Go and read again by C. Sanitizer reports of the C side on such input are violations. Also (e): the C stack extends a stack written by Go - single transactions and multi-table additions through reftable_stack_new_addition / addition_add / addition_commit (C's auto-compaction then merges tables Go wrote), compact_all, compact_all with reflog expiry (time and minimum update index, judged by the reference filter) and reftable_stack_clean - and Go reads the result (fresh view == model) and C's answers on it == Go's. (f): a long-lived C process keeps ONE stack handle open (driver command stack-session) while Go rewrites the stack underneath it; the handle reloads, its answers are compared with Go's on the new state, and a transaction added through it must land on the current state.",
    note="NUL-free names and strings; configurations both writers accept (a writer rejecting an input is counted, not judged); ASan leak detection off.",
    technique="runtime monitoring: differential oracle (two implementations + source records) with compiler sanitizers (ASan, UBSan) on the C half"),
  "C18": dict(level="exploration", design="5/C18",
@@ -20,11 +20,11 @@ CHECKS = {
    note="The race detector only reports races that occur in the interleavings of this run; rounds are repeated. Concurrent use of one Stack or one Iterator is not promised and not exercised.",
    technique="Go race detector (-race) over a repeated concurrent read workload + result comparison against sequential answers"),
  "C04": dict(level="exploration", design="5/C04", engine="engineA",
-   text="2..4 real Stack handles run scripts on one real directory under a token-passing scheduler that decides, at every hooked filesystem call, which process goes next: pause sweeps (A parked before each of its filesystem operations while the others run) over ordered pairs of operation kinds and several initial stacks, nested sweeps over triples, and PCT/uniform random schedules. Oracles: M-commit on every rename onto tables.list (new view = old view, or old view + the committer's transaction), Add result <=> committed exactly once, final fresh view = fold of commits, porcupine linearizability check of the client-boundary history. Cross-validated by engine B: real worker processes with injected delays, a seqlock observer and kill -9, checked offline with the same oracles. I/O fault sweeps: every hooked filesystem operation of every call kind fails once with an injected error (removals exempt); the failed call is indeterminate but never partially visible, a call that still returns nil committed exactly its transaction. Sequential single-handle histories and the capacity-window family (records at the capacity of a block that become the first record of a compacted table): an Add or compaction by the only handle never fails. Also late-clock pair sweeps (virtual clock decades after the files' time stamps).",
+   text="2..4 real Stack handles run scripts on one real directory under a token-passing scheduler that decides, at every hooked filesystem call, which process goes next: pause sweeps (A parked before each of its filesystem operations while the others run) over ordered pairs of operation kinds and several initial stacks, nested sweeps over triples, and PCT/uniform random schedules. Oracles: M-commit on every rename onto tables.list (new view = old view, or old view + the committer's transaction), Add result <=> committed exactly once, final fresh view = fold of commits, porcupine linearizability check of the client-boundary history. Cross-validated by engine B: real worker processes with injected delays, a seqlock observer and kill -9, checked offline with the same oracles. I/O fault sweeps: every hooked filesystem operation of every call kind fails once with an injected error (removals exempt); the failed call is indeterminate but never partially visible, a call that still returns nil committed exactly its transaction. Sequential single-handle histories and the capacity-window family (records at the capacity of a block that become the first record of a compacted table): an Add or compaction by the only handle never fails. Also late-clock pair sweeps (virtual clock decades after the files' time stamps) and coarse-mtime pair sweeps (every FileInfo the code obtains carries the same modification time, as on a file system with coarse time stamps).",
    note="Processes are goroutines of one OS process; in-memory code between two filesystem calls runs atomically (exact for separate processes, which share no memory). Real kernel semantics for O_EXCL/rename/unlink (tmpfs). Verdict covers the schedules actually run.",
    technique="runtime monitoring: online refinement monitor on hooked filesystem operations under a seeded scheduler + offline linearizability checking (porcupine) of recorded histories"),
  "C05": dict(level="exploration", design="5/C05", engine="engineA",
-   text="Same engine; after EVERY single filesystem operation of every process the directory is checked: tables.list parsed independently, every named file exists and passes the independent decoder, hash size matches, ranges strictly increase, a fresh NewStack succeeds and shows the last committed state; no listed table is ever removed. Workload biased to 2..3 concurrent compactions of disjoint/overlapping ranges. I/O fault sweeps with the per-operation directory check: a failed operation never publishes a list naming a missing or malformed table. Also late-clock pair sweeps (virtual clock decades after the files' time stamps).",
+   text="Same engine; after EVERY single filesystem operation of every process the directory is checked: tables.list parsed independently, every named file exists and passes the independent decoder, hash size matches, ranges strictly increase, a fresh NewStack succeeds and shows the last committed state; no listed table is ever removed. Workload biased to 2..3 concurrent compactions of disjoint/overlapping ranges. I/O fault sweeps with the per-operation directory check: a failed operation never publishes a list naming a missing or malformed table. Also late-clock pair sweeps (virtual clock decades after the files' time stamps) and coarse-mtime pair sweeps (every FileInfo the code obtains carries the same modification time, as on a file system with coarse time stamps).",
    note="A process crash does not change the directory, so the state checked after operation k is the state a crash after k leaves. Same engine assumptions as C04.",
    technique="runtime monitoring: invariant checked at every hooked filesystem operation (independent list parser + decoder + fresh open) under seeded schedules"),
  "C06": dict(level="fault_enumeration", design="5/C06", engine="engineA",
@@ -52,7 +52,7 @@ CHECKS = {
    note="Trusts the reference stack model (gen/txn.go). Which range gets compacted is decided by the code under test; ranges are steered only through table sizes.",
    technique="runtime monitoring: reference-model oracle over real stack histories, views compared before/after every compaction"),
  "C09": dict(level="exploration", design="5/C09",
-   text="Sequential random histories over 2..4 handles; the harness reads tables.list independently and knows which handles are stale. Stale Add/NewAddition must return ErrLockFailure, stale CompactAll/AutoCompact/Clean must leave the directory byte-identical; after a failed Add UpToDate(), NextUpdateIndex() and the immediate retry are checked. Operations include expiry compactions and Addition left open across other handles' writes. Also: views of handles that hold exactly the listed tables are compared with the model before every call; Adds carrying an already committed update index (prepared before another handle's Add) must fail and change nothing; restart histories (the stack is emptied, numbering restarts, the same update-index ranges are committed again with other content while a second handle still holds the first generation).",
+   text="Sequential random histories over 2..4 handles; the harness reads tables.list independently and knows which handles are stale. Stale Add/NewAddition must return ErrLockFailure, stale CompactAll/AutoCompact/Clean must leave the directory byte-identical; after a failed Add UpToDate(), NextUpdateIndex() and the immediate retry are checked. Operations include expiry compactions and Addition left open across other handles' writes. Also: views of handles that hold exactly the listed tables are compared with the model before every call; Adds carrying an already committed update index (prepared before another handle's Add) must fail and change nothing; a fifth of the histories run with coarse time stamps (all files carry equal mtimes); restart histories (the stack is emptied, numbering restarts, the same update-index ranges are committed again with other content while a second handle still holds the first generation).",
    note="Sequential by construction (the property quantifies over sequential histories); interleavings are C04's.",
    technique="runtime monitoring: staleness reference model + directory snapshots around every call of real multi-handle histories"),
  "C11": dict(level="exploration", design="5/C11",
